@@ -415,9 +415,34 @@ static void wrappers(uint64_t N, unsigned reps) {
   }
 }
 
+// the same exponent p applied back to back in different dimensions (and different p in the same dimension):
+// the maps must not depend on what was computed before
+static void cross_dimension_case(unsigned rep) {
+  if (!case_begin("kernels|same-p-across-dimensions", "rep=%u", rep)) return;
+  rng_t* r = crng();
+  static const uint64_t DN[] = {16, 64, 256, 1024, 4, 4096, 8, 2, 512, 32};
+  for (int round = 0; round < 6; round++) {
+    int64_t p = (round & 1) ? far_rep(r, 4096, (uint64_t)rng_range(r, 0, 8191), round & 3) : (int64_t)rng_range(r, -9000, 9000);
+    const unsigned start = (unsigned)(rng_u64(r) % ARRAY_LEN(DN));
+    for (unsigned k = 0; k < ARRAY_LEN(DN); k++) {
+      const uint64_t N = DN[(start + (round & 2 ? ARRAY_LEN(DN) - k : k)) % ARRAY_LEN(DN)];  // ascending and descending orders
+      ws_t w;
+      ws_init(&w, N, 8 * (k % 8));
+      fill_probe(&w, 0, r);
+      check_all(&w, p, 0);
+      check_all(&w, p | 1, 0);
+      ws_free(&w);
+    }
+  }
+  cnt("cross_dimension_sequences", 6);
+  sample("6 exponents, each applied consecutively in 10 dimensions (both orders)");
+  case_end(1);
+}
+
 void run_C09(void) {
   const int th = G.thorough;
   const uint64_t exh_max = th ? 65536 : 8192;
+  for (unsigned rep = 0; rep < (th ? 400u : 32u); rep++) cross_dimension_case(rep);
   for (uint64_t N = 1; N <= 65536; N <<= 1) {
     if (N <= exh_max)
       exhaustive_kernels(N, N <= (th ? 4096 : 1024));
